@@ -2,6 +2,7 @@ import MlModel.Lemmas.Pipe
 import MlModel.Lemmas.PipeBatch
 import MlModel.Lemmas.PipeBuild
 import MlModel.Lemmas.PipeHeap
+import MlModel.Lemmas.PipeAligned
 import MlModel.Properties.C19
 /-!
 # C08 — pipeline operators route data exactly as a reference interpreter
@@ -29,7 +30,8 @@ the reference interpreter produces.
 Full-strength statement: the same for *every* chain the builder accepts.  Missing here:
 * operators with `fn_batch_size` / `batch_size` (`OpOK.unbatched`).  `apply` / `select` / `batch`
   with batch sizes are covered by `C08_refines_batched_partial` below (which extends this theorem:
-  `C08_refines_batched_extends`); for `assign` the statement is **false** on the real code (finding
+  `C08_refines_batched_extends`); for `assign` with `batch_size` the statement holds on ALIGNED streams
+  (`C08_assign_batched_aligned_partial`) and is **false** on the real code otherwise (finding
   F-C08-assign-rebatch = F-C19-assign, `Witness/C08.lean`);
 * `SELF` as the first of several output keys of an `apply` (`OpOK.selfAlone`; the builder rejects
   it for `assign` only) and predicates that return tuples (`OpOK.pred`): what the real code does
@@ -86,8 +88,8 @@ theorem C08_batched_apply (ignore : Bool) (op : Op) (src : List (Ev Val))
 observes is what the reference produces, operator after operator (`Ref.opEvents` record by record
 for operators without batch sizes, `Ref.opEventsB` over the whole stream for those with).
 
-Still missing from the full-strength statement: `assign` with batch sizes (false on the real code:
-F-C08-assign-rebatch, F5); the well-formedness side conditions collected in `BatchedOK`
+Still missing from the full-strength statement: `assign` with batch sizes (aligned streams:
+`C08_assign_batched_aligned_partial`; otherwise false on the real code: F-C08-assign-rebatch, F5); the well-formedness side conditions collected in `BatchedOK`
 (ragged or non-column data makes `rebatched_args` raise; not stated); with skipping on, a record
 with unreadable inputs in front of an operator with `fn_batch_size` (false on the real code:
 F-C12-fnbatch-lost); and the conditions of `C08_refines_partial` for the un-batched operators. -/
@@ -104,6 +106,55 @@ theorem C08_refines_batched_extends (ignore : Bool) (ops : List Op) (hops : ∀ 
     RunOKG ignore ops src ∧ Ref.chainEventsG ignore ops src = Ref.chainEvents ignore ops src :=
   ⟨runOKG_of_cleanRun ignore ops hops src hc,
    chainEventsG_unbatched ignore ops (fun op ho => (hops op ho).unbatched) src⟩
+
+/-! ### `assign` with `batch_size`: the aligned sub-case (finding F-C08-assign-rebatch pinned to the rest)
+
+The reference for an `assign` does not depend on batch sizes: every record gets, under the assigned
+keys, what the function computed from ITS OWN inputs (`Ref.opEvents`: `Ref.semCall` / `Ref.semWrite`
+record by record) — for a record of columns: the columns computed from its own rows.  The real
+`Assign.iterate` zips the `j`-th batch that leaves the `rebatched_args(…, batch_size)` generator with the
+`j`-th incoming record (`Impl.pwi` over `Impl.rebatchGen`), which is that reference exactly when the
+re-batcher does not move rows between batches.  Vocabulary (`Lemmas/PipeAligned.lean`):
+* `Ref.callOuts op s src` — the normalised results of the calls, record by record, up to the first error;
+* `AlignedCalls ignore b nc results` — every result is a batch of `nc` `list` / `tuple` columns of exactly
+  `b` rows, the LAST of a stream that ends normally `1..b`; the error the stream breaks off with (if any)
+  ends the run (with skipping on: it is not skippable — a skipped failing call is finding F5);
+* `AssignAlignedOK ignore op src` — `assign`, `fn_batch_size = 0`, `batch_size > 0`, output keys,
+  `SelfAlone`, and `AlignedCalls` of the calls over the source without its skippable failing reads. -/
+
+/-- **C08_assign_batched_aligned_partial.**  For every `assign(..., batch_size = b)` (`b > 0`, any output
+key shapes, any user function with private state), both skipping modes and every finite stream of source
+outcomes on which the call results are ALIGNED — exactly `b` rows each, the last `1..b` —: the real
+iterator stack of `Assign.iterate` (`map(_get_inputs)`, the call, `map(_normalize_outputs)`, the
+`rebatched_args` *generator*, `processed_with_inputs` with its `_TeeIterator` FIFO and — skipping on —
+`_SKIP` markers, `starmap(_get_outputs)`) produces exactly the events of the per-record reference: every
+record with the columns computed from its own rows under the assigned keys, a failing read of the source
+skipped (skipping on) or surfacing, the first failing call surfacing.  The proof follows the `used`
+annotations of `Impl.rebatchGen` through `Impl.pwi`: a batch of exactly `b` rows leaves the re-batcher in
+the iteration it entered (buffer empty again: `Rebatch.step_init_full`) while its own record is the one
+entry of the FIFO; a shorter last batch leaves it when the source is exhausted (`used = endUsed`:
+`Rebatch.finish_push_short`) and still finds its own record as the one entry left.
+
+Partial — what is missing from "every `assign` with batch sizes": `fn_batch_size > 0`; and every stream
+that is not aligned, where the statement is **false** on the real code: finding F-C08-assign-rebatch =
+F-C19-assign (`Witness/C08.lean: C08_assign_rebatch_witness`, one record of 3 rows, `b = 2`), and — a
+skipped failing call — F5 (`Witness/C12.lean`).  So the open finding is pinned to exactly the misaligned
+(and `fn_batch_size`) case. -/
+theorem C08_assign_batched_aligned_partial (ignore : Bool) (op : Op) (src : List (Ev Val))
+    (h : AssignAlignedOK ignore op src) :
+    (Impl.opIterate ignore op src).evs.map (·.ev) = Ref.opEvents ignore op op.s0 (Ref.skipNT ignore src) :=
+  opIterate_assign_aligned ignore op src h
+
+/-- **C08_refines_assign_aligned_partial.**  `C08_refines_partial` for chains of un-batched operators
+(`OpOK`) and aligned `assign`s with `batch_size` (`AssignAlignedOK` on the stream they receive:
+`RunOKA`), over ANY source and with no `CleanRun` condition: what the caller of the real runner observes
+is the reference `Ref.chainEventsS` (every operator skips the skippable errors passed on to it and
+processes the rest record by record). -/
+theorem C08_refines_assign_aligned_partial (ignore : Bool) (ops : List Op) (src : List (Ev Val))
+    (h : RunOKA ignore ops src) :
+    ((Impl.run ignore ops src).out, (Impl.run ignore ops src).err)
+      = observe (Ref.chainEventsS ignore ops src) := by
+  simp only [Impl.run, topEventsA_spec ignore ops src h]
 
 /-- rows of column `c` of a tuple of columns -/
 def colRowsV (cols : List Val) (c : Nat) : List Val := (Ref.asCol (cols.getD c .none)).rows
@@ -212,12 +263,14 @@ theorem C08_tee_aligned (skip : Bool) (rs : List Val) (outs : List (List Val))
   simpa [Impl.countOk] using this
 
 /-- the same for the iterator stack of a real un-batched operator, including records whose
-processing fails: `paired` = every output next to the record it was computed from -/
+processing fails and — the repaired `processed_with_inputs`, finding F-C12-passed-on — skippable
+failing reads of the source (`Impl.annotSkip`: the source behind the `iter_ignore_error` wrapper):
+`paired` = every output next to the record it was computed from, for ANY source -/
 theorem C08_tee_aligned_op (skip : Bool) (op : Op) (h : op.fnBatch = 0 ∧ op.batch = 0)
     (src : List (Ev Val)) :
-    Impl.pwi skip src 0 (Impl.iterate false op ⟨Impl.annot 0 src, src.length + 1⟩).evs
+    Impl.pwi skip src 0 (Impl.iterate false op ⟨Impl.annotSkip skip 0 src, src.length + 1⟩).evs
       = paired skip op op.s0 0 src := by
-  rw [iterate_unbatched false op h, pwi_aligned0]
+  rw [iterate_unbatchedT skip op h, pwi_aligned0]
 
 /-! ## `apply` / `select` replace the record -/
 
@@ -757,6 +810,46 @@ example : (Impl.run false [exBatched] exColSrc).out.map colInts = [[1, 2, 3], [4
 
 example : Rebatch.WF 1 ([[Val.list [.int 0, .int 1, .int 2]], [Val.list [.int 3]]].map Ref.asBatch) := by
   decide
+
+/-- `assign('o', fn=lambda v: [x + 1 for x in v], input_keys='v', batch_size=2)` -/
+def exAssignB : Op :=
+  { kind := .assign, inKeys := [.name "v"], outKeys := [.key (.name "o")], batch := 2,
+    fn := fun s args _ => (match args with
+      | [.list xs] => .ok (.list (xs.map fun x => match x with | .int i => .int (i + 1) | y => y))
+      | _ => .error .type, s) }
+
+/-- three incoming column batches of 2, 2 and 1 rows (aligned for `batch_size = 2`), a skippable failing
+read of the source between them -/
+def exAlignedSrc : List (Ev Val) :=
+  [.ok (.dict [("v", .list [.int 0, .int 1])]), .error { kind := .value },
+   .ok (.dict [("v", .list [.int 2, .int 3])]), .ok (.dict [("v", .list [.int 4])])]
+
+/-- the integers of column `k` of a record -/
+def intsAt (k : String) (r : Val) : List Int :=
+  match getKey r (.name k) with
+  | .ok (.list xs) => xs.filterMap fun x => match x with | .int i => some i | _ => none
+  | _ => []
+
+/-- the hypothesis of `C08_assign_batched_aligned_partial` holds on it (skipping on: the failing read is
+skipped; the last batch is shorter) -/
+example : AssignAlignedOK true exAssignB exAlignedSrc :=
+  ⟨rfl, rfl, by decide, by decide, fun k k' rest h => by simp [exAssignB] at h,
+   alignedCallsB_sound _ _ _ _ (by decide +kernel)⟩
+
+example : RunOKA true [exAssignB] exAlignedSrc :=
+  ⟨Or.inr ⟨rfl, rfl, by decide, by decide, fun k k' rest h => by simp [exAssignB] at h,
+     alignedCallsB_sound _ _ _ _ (by decide +kernel)⟩, trivial⟩
+
+/-- ... and the conclusion is not trivial: every record keeps its own rows and gets the column computed
+from them, the short last one included -/
+example :
+    (Impl.run true [exAssignB] exAlignedSrc).out.map (fun r => (intsAt "v" r, intsAt "o" r))
+      = [([0, 1], [1, 2]), ([2, 3], [3, 4]), ([4], [5])] ∧
+    (Impl.run true [exAssignB] exAlignedSrc).err = none := by decide +kernel
+
+/-- the hypothesis fails on the stream of the open finding (one batch of 3 rows, `batch_size = 2`) -/
+example : Ref.alignedCallsB false 2 1 (Ref.callOuts exAssignB 0
+    [.ok (.dict [("v", .list [.int 0, .int 10, .int 20])])]) = false := by decide +kernel
 
 /-! ### the heap-aware theorem is not true by construction -/
 
